@@ -117,4 +117,65 @@ def plan():
            bounds=dict(B3, receiver_mask=m3(m), delta="any header (from, watermark, max in 0..=7), %d key-values with strictly increasing versions, any keys/statuses, max = last version (what an honest serializer emits)" % n),
            desc="real apply_delta on every (copy, delta) pair in scope, honest or not") for m in (0b000, 0b001, 0b011, 0b111) for n in (0, 1, 2, 3)] + \
         [rcv("C04", "P_C04", m, own=False, ledger=False, tiers=("quick", "thorough") if m == 0b001 else ("thorough",)) for m in (0b001, 0b110)]
+    # ---------------- S2 (tombstone GC step) joins C02/C03/C04
+    def gc(prop, pconst, m, tiers):
+        return H(f"gc_{prop.lower()}_{m3(m)}", f"{{ select({pconst}); gc_step({m}, 6) }}", unwind=5, tiers=tiers,
+                 covers=["entry collected exactly at the grace boundary"] if m else [], funcs=["state.rs::NodeState::gc_keys_marked_for_deletion", "types.rs::DeletionStatus::time_of_start_scheduled_for_deletion"],
+                 cuts=[CUT_LISTENER], bounds=dict(B3, mask=m3(m), clock="symbolic now / tombstone instants / grace period (nanosecond resolution)", ledger="symbolic owner ledger, I1-I4 assumed"),
+                 desc="tombstone GC at an arbitrary instant from an arbitrary copy satisfying I1-I4")
+    P["C02"] += [gc("C02", "P_C02", m, ("quick", "thorough") if m == 0b011 else ("thorough",)) for m in (0b011, 0b111, 0b001)]
+    P["C03"] += [gc("C03", "P_C03", m, ("quick", "thorough") if m == 0b011 else ("thorough",)) for m in (0b011, 0b111)]
+    P["C04"] += [gc("C04", "P_C04", m, ("quick", "thorough") if m == 0b011 else ("thorough",)) for m in (0b011, 0b111)]
+    # ---------------- C06: differential against a reference versioned map
+    OPS = {0: "set", 1: "set_with_ttl", 2: "delete", 3: "delete_after_ttl", 4: "gc"}
+    RS = {0: "point reads+counts", 1: "full iterations", 2: "iter_prefix('')", 3: "iter_prefix('a')", 4: "iter_prefix('ab')", 5: "iter_prefix('b')"}
+    R_C06 = R_COMMON
+    def c06(mask, op, k, rsid, tiers):
+        covers = []
+        if op == 4 and rsid == 0 and mask:
+            covers = ["collected exactly at the grace boundary"]
+        return H(f"c06_{format(mask, '04b')}_{OPS[op]}{k}_r{rsid}", f"c06_model({mask}, {op}, {k}, {rsid})", unwind=5, tiers=tiers, covers=covers, rules=R_C06, cap=4,
+                 funcs=["state.rs::NodeState::{set,set_with_ttl,delete,delete_after_ttl,gc_keys_marked_for_deletion,get,get_versioned,contains_key,key_values,key_values_including_deleted,num_key_values,iter_prefix}", "types.rs::VersionedValue::is_deleted"],
+                 cuts=[CUT_LISTENER], timeout=1500, mem=10,
+                 bounds={"keys": "alphabet {'', 'a', 'ab', 'b'}, presence mask " + format(mask, "04b"), "values": "{'', 'x', 'y'} symbolic", "versions": "1..=1000 symbolic, distinct",
+                         "statuses": "symbolic", "clock": "symbolic instants, grace period symbolic (ns resolution)", "operation": f"{OPS[op]} on key index {k} (one step from an arbitrary well-formed state)", "reads": RS[rsid], "map_capacity": 4},
+                 desc="one local operation from an arbitrary state, all reads of the read set compared with the reference map")
+    q = [(0b0110, 0, 1, 0), (0b0110, 0, 1, 1), (0b0111, 1, 2, 0), (0b0011, 2, 1, 0), (0b0011, 2, 2, 0), (0b0110, 3, 1, 0), (0b0111, 4, 0, 0), (0b0110, 4, 0, 1),
+         (0b0111, 4, 0, 3), (0b1110, 2, 1, 3), (0b0111, 0, 0, 2), (0b1011, 1, 3, 5)]
+    P["C06"] = [c06(m, op, k, r, ("quick", "thorough")) for (m, op, k, r) in q]
+    seen = set(q)
+    for m in (0b0000, 0b0110, 0b0111, 0b1011, 0b1110):
+        for op in range(5):
+            for k in ((0, 1, 2, 3) if op < 4 else (0,)):
+                for r in ((0, 2 + (k % 4)) if m != 0b0111 else (0, 1, 2 + (k % 4))):
+                    if (m, op, k, r) not in seen and not (m == 0b1111 and op == 4):
+                        seen.add((m, op, k, r))
+                        P["C06"].append(c06(m, op, k, r, ("thorough",)))
+    # ---------------- C10 / C11: failure detector
+    F_FD = ["failure_detector.rs::SamplingWindow::{new,report_heartbeat,phi,reset}", "failure_detector.rs::BoundedArrayStats::{append,clear,len,sum}", "failure_detector.rs::AdditiveSmoothing::compute_mean"]
+    CFG = {0: "phi 8, max 10 s, initial 5 s", 1: "phi 0.5, max 1 s, initial 1 s", 2: "phi 16, max 100 s, initial 1000 s", 3: "phi 2, max 1000 s, initial 10 s", 4: "phi 4, max 3 s, initial 7 s"}
+    def fdh(name, body, covers, tiers, desc, bounds, funcs=F_FD, timeout=900, mem=6):
+        return H(name, body, mod="failure_detector", macro="h_fd", unwind=6, tiers=tiers, covers=covers, rules=R_COMMON, funcs=funcs, bounds=bounds, desc=desc, timeout=timeout, mem=mem,
+                 cuts=["clock = vstd::time::NOW (solver variable)", "durations on a whole-second grid", "configuration enumerated (symbolic x symbolic double division stalls bit-blasting)"])
+    def hist(cfg, w, n, tiers):
+        cov = ["alive verdict reachable"] + (["an over-long interval was dropped, others kept"] if n >= 3 else []) + (["ring wrapped around"] if n - 1 > w else [])
+        return fdh(f"c10_hist_{cfg}_{w}_{n}", f"c10_history({cfg}, {w}, {n})", cov, tiers, "exact short heartbeat history through the real report path, then silence",
+                   {"config": CFG[cfg], "window": w, "arrivals": n, "gaps": "0..3 x max_interval, symbolic whole seconds", "silence": "symbolic"})
+    def steady(cfg, w, n, tiers):
+        return fdh(f"c11_steady_{cfg}_{w}_{n}", f"c11_steady({cfg}, {w}, {n})", ["dead verdict reachable"] if cfg in (1, 4) and n >= 2 else [], tiers, "steady heartbeats with gaps in [a,b] stay within the threshold",
+                   {"config": CFG[cfg], "window": w, "arrivals": n, "a,b": "symbolic, 1 s <= a <= b <= max_interval"})
+    def absw(cfg, compl, tiers):
+        return fdh(f"{'c10' if compl else 'c11'}_abs_{cfg}", f"window_abstract({cfg}, 1000, {str(compl).lower()})", ["alive verdict reachable"] if compl else ["dead verdict reachable"], tiers,
+                   "arbitrary window contents (long histories in the abstract): len 1..=1000, sum in [len*lo, len*hi], hi <= max_interval",
+                   {"config": CFG[cfg], "window": 1000, "assumption": "the incrementally maintained sum stays within [len*lo, len*hi] (checked exactly for short histories by c10_hist_*)"})
+    def classify(cfg, tiers):
+        return fdh(f"fd_classify_{cfg}", f"fd_classify({cfg})", ["classified live", "classified dead with a window"], tiers, "FailureDetector::update_node_liveness classification glue over an arbitrary window",
+                   {"config": CFG[cfg], "window": 4}, funcs=["failure_detector.rs::FailureDetector::{update_node_liveness,phi}"] + F_FD, timeout=1500, mem=8)
+    P["C10"] = [hist(0, 1, 2, ("quick", "thorough")), hist(0, 1, 3, ("quick", "thorough")), hist(0, 2, 4, ("quick", "thorough")), hist(4, 2, 4, ("quick", "thorough")), absw(0, True, ("quick", "thorough")), absw(2, True, ("quick", "thorough")),
+                classify(0, ("quick", "thorough"))] + \
+        [hist(c, w, n, ("thorough",)) for c in (1, 2, 3, 4) for (w, n) in ((1, 3), (2, 4), (3, 5), (1, 4))] + [hist(0, 3, 5, ("thorough",)), hist(0, 1, 4, ("thorough",))] + \
+        [absw(c, True, ("thorough",)) for c in (1, 3, 4)] + [classify(c, ("thorough",)) for c in (1, 4)]
+    P["C11"] = [steady(0, 2, 3, ("quick", "thorough")), steady(4, 2, 3, ("quick", "thorough")), steady(1, 1, 2, ("quick", "thorough")), steady(0, 1, 1, ("quick", "thorough")), absw(0, False, ("quick", "thorough")), absw(4, False, ("quick", "thorough")),
+                classify(0, ("quick", "thorough"))] + \
+        [steady(c, w, n, ("thorough",)) for c in (1, 2, 3, 4) for (w, n) in ((1, 3), (2, 4), (3, 4))] + [absw(c, False, ("thorough",)) for c in (1, 2, 3)]
     return P
